@@ -7,8 +7,8 @@
    take-handle / compute / store-through-handle against mutators that end with changed(). *)
 From Coq Require Import List Arith Bool.
 Import ListNotations.
-From ZI Require Import Model.Adapter Model.Lookup Model.Own Model.Race Proofs.Own Proofs.OwnToday Proofs.Race
-  Gen.CSkeleton.
+From ZI Require Import Model.Adapter Model.Lookup Model.Own Model.Race Proofs.Own Proofs.OwnInline Proofs.OwnToday
+  Proofs.Race Gen.CSkeleton.
 
 (* A path that keeps to the ownership discipline D (every pointer used after a may-call point was
    fetched after it or is owned since before it; every reference taken is given back exactly once)
@@ -30,14 +30,76 @@ Proof. exact discipline_safe. Qed.
 Print Assumptions C11_discipline_safe.
 
 (* The skeleton extracted from TODAY'S C source keeps to the discipline on every path of every
-   function, key callbacks included.  (Breaks when the C code regresses.) *)
-Theorem C11_skeleton_disciplined : forallb (D_fn true) skeleton = true.
+   function, key callbacks included: D, and the stronger Dc (= D and every parameter stays owned after
+   every step, Proofs/OwnInline.v) that makes each function a sound callee.  23 functions: the lookup
+   code proper and providedBy, implementedBy, implementedByFallback, getObjectSpecification,
+   SB_extends, _foreign_decl_implies, CPB_descr_get, OSD_descr_get, IB__adapt__, IB__call__.
+   (Breaks when the C code regresses.) *)
+Theorem C11_skeleton_disciplined : forallb (D_fn true) skeleton && forallb (Dc_fn true) skeleton = true.
 Proof. exact skeleton_disciplined. Qed.
 Print Assumptions C11_skeleton_disciplined.
 
-(* ... hence every extracted path of _subcache, _getcache, _lookup, _lookup1, _adapter_hook,
-   _lookupAll, _subscriptions, _generations_tuple, verify_changed, _verify, LB_clear/LB_changed,
-   VB_clear is memory-safe and leak-free under every environment. *)
+(* COMPOSITIONALITY.  Model/Own.v replaces a call between two functions of the skeleton by a summary.
+   Inlining a disciplined path (qbody, qret) of the callee g at a call site of a disciplined caller path
+   -- parameters replaced by the arguments, every other variable of the callee renamed to k + v beyond
+   all variables of the caller, "return v" turned into EMoveRef -- gives a disciplined caller path
+   again, provided the site and the path fit: one argument per parameter, no object passed twice, the
+   callee path does not mention a parameter that gets NULL, and it returns an object iff the call site
+   is the one that receives one.  ([inline], [Dc], [dom_in] are defined in Proofs/OwnInline.v.) *)
+Theorem C11_inlining_preserves_discipline :
+  forall strict cps gps pre g args ret post cret qbody qret k,
+  Dc strict cps (pre ++ ECall g args ret :: post) cret = true ->
+  Dc strict gps qbody qret = true ->
+  length args = length gps ->
+  NoDup (somes args) ->
+  (forall a, In a (somes args) -> a < k) ->
+  (forall c, In c cps -> c < k) ->
+  (forall e, In e (expand pre) -> forall v, In v (ev_vars e) -> v < k) ->
+  match ret with
+  | Some r => r < k /\ ~ In r (somes args) /\ qret <> None
+  | None => qret = None
+  end ->
+  (forall e, In e (expand qbody) -> forall v, In v (ev_vars e) -> dom_in gps args v) ->
+  (forall v, qret = Some v -> dom_in gps args v) ->
+  Dc strict cps (pre ++ inline gps args ret k qbody qret ++ post) cret = true.
+Proof.
+  intros. eapply inline_preserves_Dc; eauto. constructor; auto.
+Qed.
+Print Assumptions C11_inlining_preserves_discipline.
+
+(* Hence whole CALL TREES of today's code are safe: every path obtained from a path of an extracted
+   function by replacing any of its calls, and the calls inside the replacements, to any depth, by
+   fitting paths of the callees ([Tree], Proofs/OwnInline.v) -- _lookup1 -> _lookup -> _getcache ->
+   _subcache, _adapter_hook -> providedBy -> implementedBy .., _verify -> _generations_tuple,
+   IB__call__ -> IB__adapt__ -> providedBy .. -- never faults and returns balanced, under every
+   environment. *)
+Theorem C11_call_trees_safe : forall fid cps body r, Tree skeleton fid cps body r ->
+  forall orc s k, init_ok cps s = true ->
+  match exec true orc (expand body ++ [EReturn r]) s k with
+  | Done s' => balanced cps s' = true
+  | Infeasible => True
+  | Running _ _ => False
+  | Fault _ => False
+  end.
+Proof. exact today_trees_safe. Qed.
+Print Assumptions C11_call_trees_safe.
+
+(* the same for the trees built by computation ([inline_all]: call after call replaced by the first
+   fitting path of the callee) *)
+Theorem C11_inlined_paths_safe : forall f p b r fuel b', In f skeleton -> In p (fn_paths f) ->
+  split_ret p = Some (b, r) -> inline_all fuel skeleton (fn_params f) b r = Some b' ->
+  forall orc s k, init_ok (fn_params f) s = true ->
+  match exec true orc (expand b' ++ [EReturn r]) s k with
+  | Done s' => balanced (fn_params f) s' = true
+  | Infeasible => True
+  | Running _ _ => False
+  | Fault _ => False
+  end.
+Proof. exact today_inlined_safe. Qed.
+Print Assumptions C11_inlined_paths_safe.
+
+(* ... and every extracted path of every extracted function on its own (calls as summaries) is
+   memory-safe and leak-free under every environment. *)
 Theorem C11_todays_code_safe : forall f p, In f skeleton -> In p (fn_paths f) ->
   forall orc s k, init_ok (fn_params f) s = true ->
   match exec true orc (expand p) s k with
@@ -174,9 +236,17 @@ Definition python_lookup_frame : path :=
 Example python_frame_disciplined : D true [0; 1] python_lookup_frame = true.
 Proof. vm_compute. reflexivity. Qed.
 
-(* today's skeleton is not empty: 13 functions, each with at least one path *)
-Example skeleton_is_there : (13 <=? length skeleton) && forallb (fun f => 1 <=? length (fn_paths f)) skeleton = true.
+(* today's skeleton is not empty: 23 functions, at least the 13 of the lookup code proper have paths *)
+Example skeleton_is_there :
+  (23 <=? length skeleton) && (13 <=? length (filter (fun f => 1 <=? length (fn_paths f)) skeleton)) = true.
 Proof. exact skeleton_nonempty. Qed.
+
+(* call trees exist: every path of _lookup1, _adapter_hook, _verify, providedBy and IB__call__ inlines
+   completely (no call left) *)
+Example call_trees_exist :
+  forallb fully_inlines (filter (fun f => existsb (Nat.eqb (fn_id f)) [6; 7; 12; 18; 22]) skeleton) = true
+  /\ length (filter (fun f => existsb (Nat.eqb (fn_id f)) [6; 7; 12; 18; 22]) skeleton) = 5.
+Proof. exact trees_exist. Qed.
 
 (* the race model on a concrete schedule: registry = a number, answer r q = r + q.
    thread 1 takes the handle and computes in state 10; a mutator writes 20 and calls changed();
